@@ -287,6 +287,11 @@ type Sim struct {
 	bytesSent   uint64
 	bytesRecv   uint64
 	dupClosed   []int
+	lastStart   time.Time     // real time at which the previous operation began / ended
+	lastEnd     time.Time
+	SlowOp      string
+	closed      bool
+	MaxOp       time.Duration // longest single operation (bounds the uncompensated jitter)
 }
 
 type quietLogger struct{}
@@ -436,6 +441,10 @@ func CandToks(h int, c ice.Candidate) []string {
 	t := []string{fmt.Sprint(h), fmt.Sprint(int(c.Type())), fmt.Sprint(int(c.NetworkType()))}
 	t = append(t, AddrOf(ap).Toks()...)
 	t = append(t, fmt.Sprint(int(c.TCPType())), fmt.Sprint(c.Priority()), fmt.Sprint(c.Component()))
+	return append(t, relToks(c)...)
+}
+
+func relToks(c ice.Candidate) []string {
 	if ra := c.RelatedAddress(); ra != nil {
 		ipn := "0"
 		if ra.Address != "" {
@@ -443,11 +452,9 @@ func CandToks(h int, c ice.Candidate) []string {
 				ipn = AddrOf(netip.AddrPortFrom(p, 0)).IP.String()
 			}
 		}
-		t = append(t, ipn, fmt.Sprint(ra.Port))
-	} else {
-		t = append(t, "-")
+		return []string{ipn, fmt.Sprint(ra.Port)}
 	}
-	return t
+	return []string{"-"}
 }
 
 func candAddrPort(c ice.Candidate) netip.AddrPort {
@@ -528,6 +535,17 @@ func userTok(u string) int {
 	}
 	var n int
 	if _, err := fmt.Sscanf(u, "ufrag%04d", &n); err != nil {
+		return -1
+	}
+	return n
+}
+
+func pwdTok(p string) int {
+	if p == "" {
+		return 0
+	}
+	var n int
+	if _, err := fmt.Sscanf(p, "password-%013d", &n); err != nil {
 		return -1
 	}
 	return n
